@@ -44,8 +44,9 @@ NETWORKS = {   # name -> (topology, equipment library, sim_params or None)
     'fusedroadm': ('fused_roadm_example_network.json', 'eqpt_config.json', None),
     'edfa': ('edfa_example_network.json', 'eqpt_config.json', None),
     # variant of the multi-band example (built in memory from the shipped files, see _variant): the line
-    # Site_L <-> Site_A is equipped with ONE-band amplifiers whose band spans L and C, the rest is unchanged, so that
-    # paths cross a wide single-band amplifier before (L -> D) and after (D -> L) the L+C multi-band amplifiers
+    # Site_L <-> Site_A is equipped with ONE-band amplifiers whose band spans L and C, so that paths cross a wide
+    # single-band amplifier before (L -> D) and after (D -> L) the L+C multi-band amplifiers; and the multi-band lines
+    # A <-> D are DESIGNED for bands (per_degree_design_bands) narrower than the bands of their amplifiers
     'multiband-wide': ('multiband_example_network.json', 'eqpt_config_multiband.json', None),
 }
 # variant of the mesh example: every second fibre is of a negative-dispersion type (metro NZDSF like: the shipped
@@ -57,6 +58,11 @@ NETWORKS['mesh-mixed'] = ('meshTopologyExampleV2.json', 'eqpt_config.json', None
 NETWORKS['raman-lowpump'] = ('raman_edfa_example_network.json', 'eqpt_config.json',
                              {'raman_params': {'flag': True, 'result_spatial_resolution': 10e3,
                                                'solver_spatial_resolution': 50}})
+# the mesh example with the approximate GGN method, the NLI being evaluated for three channels that do not cover the
+# edges of the comb and inter-/extrapolated for the others
+NETWORKS['mesh-ggn'] = ('meshTopologyExampleV2.json', 'eqpt_config.json',
+                        {'nli_params': {'method': 'ggn_approx', 'computed_channels': [6, 12, 18]}})
+DESIGN_BANDS = [{'f_min': 191.3e12, 'f_max': 196.0e12}, {'f_min': 187.0e12, 'f_max': 190.0e12}]
 WIDE_BAND = dict(type_variety='wide_band', f_min=186.0e12, f_max=196.2e12, allowed_for_design=False)
 
 
@@ -70,6 +76,11 @@ def _variant(name, eqpt_json, topo_json):
             if elem['uid'] in ('east edfa in Site_L to Site_A', 'west edfa in Site_A to Site_L',
                                'east edfa in Site_A to Site_L', 'west edfa in Site_L to Site_A'):
                 elem['type_variety'] = 'wide_band'
+            # the multi-band lines A -> D and D -> A are designed for bands NARROWER than those of their amplifiers
+            if elem['uid'] == 'roadm Site_A':
+                elem['params']['per_degree_design_bands'] = {'east edfa in Site_A to Site_B': copy.deepcopy(DESIGN_BANDS)}
+            if elem['uid'] == 'roadm Site_D':
+                elem['params']['per_degree_design_bands'] = {'east edfa in Site_D to Site_C': copy.deepcopy(DESIGN_BANDS)}
     if name == 'mesh-mixed':
         neg = next(dict(f) for f in eqpt_json['Fiber'] if f['type_variety'] == 'NZDF')
         neg.update(type_variety='NZDF_NEG', dispersion=-neg['dispersion'])
@@ -80,6 +91,15 @@ def _variant(name, eqpt_json, topo_json):
                 elem['type_variety'] = 'NZDF_NEG'
             if elem['type'] == 'Roadm':
                 elem['type_variety'] = 'detailed_impairments'
+            if elem['uid'] == 'roadm Lannion_CAS':
+                # line-to-line connections through an external add / drop shelf: mapped on the add (id 1) or drop (id 2)
+                # profile of the library, one connection keeps the default express profile
+                sites = ('Corlay', 'Stbrieuc', 'Morlaix')
+                ids = iter([1, 2, 1, 2, 1])
+                elem.setdefault('params', {})['per_degree_impairments'] = [
+                    {'from_degree': f'west edfa in Lannion_CAS to {a}', 'to_degree': f'east edfa in Lannion_CAS to {b}',
+                     'impairment_id': next(ids)}
+                    for a in sites for b in sites if a != b and (a, b) != ('Morlaix', 'Corlay')]
     if name == 'raman-lowpump':
         for elem in topo_json['elements']:
             if elem['type'] == 'RamanFiber':
@@ -243,6 +263,20 @@ def seeded_pairs(net, rng, k):
     return out
 
 
+def pairs_through(net, uid, rng, k):
+    """k seeded transceiver pairs whose route crosses the element `uid` away from its ends"""
+    import gnpy.topology.request as rq
+    out = []
+    for a, b in seeded_pairs(net, rng, 10 ** 6):
+        r = make_request([v for v in _LOADED.values() if v and v[0] is net][0][2], a, b)
+        path = rq.compute_constrained_path(net, r)
+        if any(el.uid == uid for el in path[2:-2]):
+            out.append((a, b))
+        if len(out) == k:
+            break
+    return out
+
+
 def make_request(base_req, src, dst, spectrum=None, **over):
     r = copy.deepcopy(base_req)
     r.source, r.destination, r.nodes_list, r.loose_list = src, dst, [dst], ['STRICT']
@@ -273,10 +307,17 @@ def permuted(spectrum, rng):
 
 
 # ------------------------------------------------------------------------------------------------- recording
+def bands_of(el):
+    """the band(s) an amplifier can carry, from its equipment parameters: f_min / f_max of the Edfa, and of every member
+    amplifier of a Multiband_amplifier (NOT the derived `params.bands` attribute the launch filter itself reads)"""
+    from gnpy.core.elements import Multiband_amplifier
+    amps = list(el.amplifiers.values()) if isinstance(el, Multiband_amplifier) else [el]
+    return [[mhz(a.params.f_min), mhz(a.params.f_max)] for a in amps]
+
+
 def amp_bands(path):
     from gnpy.core.elements import Edfa, Multiband_amplifier
-    return [[[mhz(b['f_min']), mhz(b['f_max'])] for b in el.params.bands] for el in path
-            if isinstance(el, (Edfa, Multiband_amplifier))]
+    return [bands_of(el) for el in path if isinstance(el, (Edfa, Multiband_amplifier))]
 
 
 def auto_mode_request(eq, src, dst, trx_type, spacing):
@@ -486,6 +527,7 @@ def scenarios(tier, seed):
     with_spectrum('band-edges', 'multiband', edges, pair=('trx Site_A', 'trx Site_D'))
     with_spectrum('band-edges', 'multiband', edges, pair=('trx Site_D', 'trx Site_L'), permute=False)
     with_spectrum('band-edges', 'multiband-wide', edges, pair=('trx Site_L', 'trx Site_D'), permute=False)
+    with_spectrum('band-edges', 'multiband-wide', edges, pair=('trx Site_D', 'trx Site_A'), permute=False)
     with_spectrum('one-carrier-per-band', 'multiband', lambda: carriers([std(0, lab='c'), std(-4_000_000, lab='l')]),
                   pair=('trx Site_A', 'trx Site_D'), permute=False)
     uniform('uniform', 'multiband', 8 if thorough else 1)
@@ -496,8 +538,20 @@ def scenarios(tier, seed):
     with_spectrum('seeded-mixed', 'fusedroadm', lambda: carriers(seeded_carriers(rng, -1_800_000, 2_000_000, 12)))
     with_spectrum('raman-mixed', 'raman-lowpump', lambda: carriers(seeded_carriers(rng, -1_800_000, 2_000_000, 6)),
                   permute=thorough)
+    # NLI computed for a few channels only and extrapolated, on a non-flat comb (at least 18 carriers) and on the grid
+    with_spectrum('seeded-mixed', 'mesh-ggn', lambda: carriers(seeded_carriers(rng, -1_800_000, 2_000_000, 24)),
+                  permute=False)
+    uniform('uniform', 'mesh-ggn', 3 if thorough else 1)
     # fibres of either dispersion sign, ROADMs with detailed per-path impairment profiles
     uniform('uniform', 'mesh-mixed', 8 if thorough else 2)
+
+    def through_lannion():
+        net = network('mesh-mixed')
+        if net is None:
+            return []
+        return [record(f'mesh-mixed:express-through-add-drop-shelf:{s}->{d}', 'mesh-mixed', s, d, None)
+                for s, d in pairs_through(net[0], 'roadm Lannion_CAS', rng, 6 if thorough else 2)]
+    jobs.append(through_lannion)
     with_spectrum('seeded-mixed', 'mesh-mixed', lambda: carriers(seeded_carriers(rng, -1_800_000, 2_000_000, 24)),
                   permute=thorough)
     if thorough:
